@@ -372,7 +372,7 @@ func NewServerConn(c net.Conn, config *ServerConfig) (*ServerConn, <-chan NewCha
 	}
 	perms, err := s.serverHandshake(&fullConf)
 	if err != nil {
-		c.Close()
+		s.Close()
 		return nil, nil, nil, err
 	}
 	return &ServerConn{s, perms}, s.mux.incomingChannels, s.mux.incomingRequests, nil
